@@ -1107,6 +1107,16 @@ class KInterp:
             imp = self.ix.func_imports(st["fi"]).get(node.id) or mi.imports.get(node.id)
             if imp and imp[0] == "attr" and imp[1] in IDX_MODS:
                 return imp[1], imp[2]
+            if imp and imp[0] == "attr":
+                # imported through another module of the package (a helper substituted from there): follow it to the idx module
+                try:
+                    r = self.ix.resolve_in(st["fi"], node.id)
+                except AnalysisError:
+                    r = None
+                if r and r[0] == "value" and r[2] in IDX_MODS:
+                    for nm_, v_ in self.ix.module(r[2]).assigns.items():
+                        if v_ is r[1]:
+                            return r[2], nm_
             if self.free_syms and node.id not in st["env"] and self.ix.resolve_in(st["fi"], node.id) is None:
                 return "var.col", node.id
         if isinstance(node, ast.Attribute) and isinstance(node.value, ast.Name) and node.value.id == "cls":
